@@ -21,6 +21,7 @@ import (
 
 	log "github.com/golang/glog"
 	"github.com/openconfig/gribigo/chk"
+	"github.com/openconfig/gribigo/client"
 	"github.com/openconfig/gribigo/constants"
 	"github.com/openconfig/gribigo/fluent"
 	"google.golang.org/grpc/codes"
@@ -572,7 +573,21 @@ func TestDecElectionID(c *fluent.GRIBIClient, t testing.TB, _ ...TestOpt) {
 		t.Fatalf("could not send update with current ID via client, got err: %v", err)
 	}
 
-	chk.HasResult(t, c.Results(t),
+	// The results still contain the response to the first election ID that was sent,
+	// so check specifically the response to the decremented ID - which is the last
+	// election result that was received.
+	var last *client.OpResult
+	n := 0
+	for _, r := range c.Results(t) {
+		if r != nil && r.CurrentServerElectionID != nil {
+			last = r
+			n++
+		}
+	}
+	if n != 2 {
+		t.Fatalf("did not get a response to each election ID update, got: %d, want: 2", n)
+	}
+	chk.HasResult(t, []*client.OpResult{last},
 		fluent.
 			OperationResult().
 			WithCurrentServerElectionID(electionID.Load(), 0).
